@@ -38,7 +38,7 @@ class Raised(object):
         self.value = value
 
     def key(self):
-        return (self.exc, self.site[0], self.site[2], self.kind)
+        return (self.exc, self.site[0], self.site[2], self.kind, tuple(f[0] for f in self.stack[-3:]))
 
     def witness(self):
         chain = " -> ".join("%s" % f[0] for f in self.stack)
@@ -102,6 +102,7 @@ class Interp(ExprMixin, StmtMixin, CallMixin, PrimMixin):
         self.internal_asserts = None          # callable(ctx, node) -> reason or None
         self.class_invariants = {}            # attr name -> callable(interp, recv_term) -> Value
         self.field_types = {}                 # attr name -> frozenset(class names)
+        self.field_types_by_cls = {}          # (class, attr) -> frozenset(class names)
         self.nullable_fields = set()          # (class name, field)
         self.global_cache = {}
         self.live_stack = []
